@@ -270,7 +270,8 @@ def build():
 
     reg.add(Contract(LD, 'EntryPointsLoader.__init__', dict(self=Obj('EntryPointsLoader'), path=Any), returns=NoneT,
                      ensures=[('starts-empty', lambda c: S.forall([xq], z3.Not(z3.Select(c.new.dom(c.new.attr(c.p.self, 'entry_points')), xq)))),
-                              ('own-fresh-set', lambda c: S.addr(c.new.attr(c.p.self, 'entry_points')) >= c.old.next)],
+                              ('own-fresh-set', lambda c: S.addr(c.new.attr(c.p.self, 'entry_points')) >= c.old.next),
+                              ('records-its-path', lambda c: c.new.attr(c.p.self, 'path') == c.p.path)],
                      modifies=lambda c: {'attr:path': [c.p.self], 'attr:entry_points': [c.p.self]}))
     reg.add(Contract(LD, 'EntryPointsLoader.save', dict(self=Obj('EntryPointsLoader'), entry_points=Set(Any)), returns=NoneT,
                      requires=[('argument-is-not-the-stored-set', lambda c: c.p.entry_points != c.old.attr(c.p.self, 'entry_points'))],
@@ -359,12 +360,305 @@ def build():
                      modifies=lambda c: {'dom': [c.pre.attr(c.p.self, 'entry_point_results'),
                                                  c.pre.attr(c.pre.attr(c.pre.attr(c.p.self, 'loader'), '_entry_points_loader'), 'entry_points')],
                                          'attr:entry_points': [c.pre.attr(c.pre.attr(c.p.self, 'loader'), '_entry_points_loader')]}))
+
+    # ---- _load_settings: exactly the files whose name passes the flag are parsed, once, in os.walk order -----------------
+    from lianvc import source as _src
+    ENTRY_FILE = _src.const_eval(_src.load(EP), __import__('ast').parse('config.ENTRY_POINTS_FILE', mode='eval').body)
+    WALK = List(Tuple(Str, List(Str), List(Str)))
+    _walk = z3.Function('os_walk', z3.StringSort(), S.SeqP())
+
+    @reg.extern('os.walk', 'os.walk(top): an (uninterpreted) finite sequence of (root, dirs, files) triples of strings; order as the OS returns it')
+    def _os_walk(ex, st, node, args, kwargs):
+        seq = _walk(S.sval(args[0].t))
+        r = ex.alloc(st, 'list')
+        st.set_field('list', z3.Store(st.field('list'), S.addr(r), seq))
+        j, f = z3.Ints('wj wf')
+        triple = S.at(seq, j)
+        files = S.items(triple)[2]
+        lo = st.next_ref
+        nn = S.fresh('next_ref', z3.IntSort())
+        st.assume(nn >= lo)
+        st.next_ref = nn
+        # the dirs/files lists are objects created by os.walk: allocated by this call
+        st.assume(z3.ForAll([j], z3.Implies(z3.And(j >= 0, j < z3.Length(seq)), z3.And(
+            S.is_tup(triple), z3.Length(S.items(triple)) == 3, S.is_str(S.items(triple)[0]),
+            S.has_type(S.items(triple)[1], List(Str), nn), S.has_type(files, List(Str), nn),
+            S.addr(S.items(triple)[1]) >= lo, S.addr(files) >= lo)),
+            patterns=[S.at(seq, j)]))
+        lst = st.field('list')
+        st.assume(z3.ForAll([j, f], z3.Implies(z3.And(j >= 0, j < z3.Length(seq), f >= 0, f < z3.Length(z3.Select(lst, S.addr(files)))),
+                                               S.is_str(S.at(z3.Select(lst, S.addr(files)), f))),
+                            patterns=[S.at(z3.Select(lst, S.addr(files)), f)]))
+        return V(r, WALK)
+
+    reg.add(Contract(EP, 'EntryPointGenerator._parse_config_file', dict(self=Obj('EntryPointGenerator'), file_path=Str), returns=NoneT,
+                     opaque=True, note='reads the YAML file and appends one EntryPointRule per entry (yaml.safe_load: trusted)',
+                     modifies=lambda c: {'list': [c.old.attr(c.p.self, 'entry_point_rules')], '*': (lambda a: a >= c.old.next)}))
+
+    II = z3.ArraySort(z3.IntSort(), z3.ArraySort(z3.IntSort(), z3.IntSort()))
+    IP = z3.ArraySort(z3.IntSort(), z3.ArraySort(z3.IntSort(), S.PyObj()))
+
+    def ls_ghost(ex, st):
+        st.ghost['pcnt'] = z3.K(z3.IntSort(), z3.K(z3.IntSort(), z3.IntVal(0)))   # pcnt[r][f]: times file f of triple r was parsed
+        st.ghost['ptm'] = z3.Const('g_ptm0', II)                                   # ghost clock at that call
+        st.ghost['parg'] = z3.Const('g_parg0', IP)                                 # the path handed to _parse_config_file
+        st.ghost['pt'] = z3.IntVal(0)
+
+    def ls_after_parse(ex, st, bound, res, old):
+        g = st.ghost
+        r, f = g['loop1_i'], g['loop2_i']
+        row = z3.Select(g['pcnt'], r)
+        g['pcnt'] = z3.Store(g['pcnt'], r, z3.Store(row, f, z3.Select(row, f) + 1))
+        g['ptm'] = z3.Store(g['ptm'], r, z3.Store(z3.Select(g['ptm'], r), f, g['pt']))
+        g['parg'] = z3.Store(g['parg'], r, z3.Store(z3.Select(g['parg'], r), f, bound['file_path'].t))
+        g['pt'] = g['pt'] + 1
+
+    def W(c):
+        return _walk(S.sval(c.pre.attr(c.pre.attr(c.p.self, 'options'), 'default_settings')))
+
+    def files_of(c, r):
+        return c.pre.list(S.items(S.at(W(c), r))[2])
+
+    _passes = z3.Function('entry_file_name_passes', S.PyObj(), z3.BoolSort())
+
+    def name_flag(nm):
+        """opaque in the loop invariants; its definition (name_flag_def) is revealed for the current file name only"""
+        return _passes(nm)
+
+    def reveal_flag(ex, st, node):
+        nm = st.env['file_name'].t
+        st.assume(_passes(nm) == name_flag_def(nm))
+
+    def name_flag_def(nm):
+        f, rq_ = S.sval(nm), z3.StringVal(ENTRY_FILE)
+        dash = z3.StringVal('-')
+        k = z3.IndexOf(f, dash, 0)
+        before = z3.If(k < 0, f, z3.SubString(f, 0, k))
+        return z3.Or(f == rq_, z3.And(z3.SuffixOf(z3.Concat(dash, rq_), f), z3.Length(before) > 0))
+
+    r_, f_, r2_, f2_ = z3.Ints('r f r2 f2')
+
+    def lex_lt(r1, f1, r2, f2):
+        return z3.Or(r1 < r2, z3.And(r1 == r2, f1 < f2))
+
+    def done_before(r, f, R, F):
+        """(r, f) precedes the position (R, F) of the nested iteration"""
+        return lex_lt(r, f, R, F)
+
+    def ls_counts(c, R, F):
+        row = z3.Select(c.g.pcnt, r_)
+        return S.forall([r_, f_], z3.Select(row, f_) == z3.If(z3.And(r_ >= 0, r_ < z3.Length(W(c)), f_ >= 0, f_ < z3.Length(files_of(c, r_)),
+                                                                   done_before(r_, f_, R, F), name_flag(S.at(files_of(c, r_), f_))), 1, 0),
+                        patterns=[z3.Select(z3.Select(c.g.pcnt, r_), f_)])
+
+    def ls_called(c, r, f):
+        return z3.Select(z3.Select(c.g.pcnt, r), f) == 1
+
+    def ls_args(c):
+        return S.forall([r_, f_], z3.Implies(ls_called(c, r_, f_), z3.And(
+            S.sval(z3.Select(z3.Select(c.g.parg, r_), f_)) == shared.sp_join(S.sval(S.items(S.at(W(c), r_))[0]), S.sval(S.at(files_of(c, r_), f_))),
+            z3.Select(z3.Select(c.g.ptm, r_), f_) >= 0, z3.Select(z3.Select(c.g.ptm, r_), f_) < c.g.pt)),
+            patterns=[z3.Select(z3.Select(c.g.pcnt, r_), f_)])
+
+    def ls_order(c):
+        return S.forall([r_, f_, r2_, f2_], z3.Implies(z3.And(ls_called(c, r_, f_), ls_called(c, r2_, f2_), lex_lt(r_, f_, r2_, f2_)),
+                                                       z3.Select(z3.Select(c.g.ptm, r_), f_) < z3.Select(z3.Select(c.g.ptm, r2_), f2_)),
+                        patterns=[z3.MultiPattern(z3.Select(z3.Select(c.g.pcnt, r_), f_), z3.Select(z3.Select(c.g.pcnt, r2_), f2_))])
+
+    def ls_walk_untouched(c):
+        """the lists produced by os.walk and the options object are not touched by parsing"""
+        a = z3.Int('la')
+        rules = S.addr(c.pre.attr(c.p.self, 'entry_point_rules'))
+        return z3.And(S.forall([a], z3.Implies(z3.And(a > 0, a < c.head.next, a != rules),
+                                               z3.Select(c.cur.field('list'), a) == z3.Select(c.head.field('list'), a)),
+                               patterns=[z3.Select(c.cur.field('list'), a)]),
+                      c.cur.attr(c.p.self, 'options') == c.pre.attr(c.p.self, 'options'),
+                      c.cur.attr(c.pre.attr(c.p.self, 'options'), 'default_settings') == c.pre.attr(c.pre.attr(c.p.self, 'options'), 'default_settings'),
+                      c.cur.attr(c.p.self, 'entry_point_rules') == c.pre.attr(c.p.self, 'entry_point_rules'))
+
+    def outer_inv(c):
+        return z3.And(ls_counts(c, c.i, z3.IntVal(0)), ls_args(c), ls_order(c), c.g.pt >= 0)
+
+    def inner_inv2(c):
+        return z3.And(ls_counts(c, c.g.loop1_i, c.i), ls_args(c), ls_order(c), c.g.pt >= 0)
+
+    reg.add(Contract(EP, 'EntryPointGenerator._load_settings', dict(self=Obj('EntryPointGenerator')), returns=NoneT,
+                     ghost_init=ls_ghost, ghost_hooks={'after_call:EntryPointGenerator._parse_config_file': ls_after_parse,
+                                                        'after_stmt:processing_flag, _ =': reveal_flag},
+                     requires=[('rules-list-is-not-a-walk-result', lambda c: z3.BoolVal(True))],
+                     loops={1: LoopSpec(invariants=[('parsed-exactly-the-passing-files-so-far', outer_inv), ('walk-result-untouched', ls_walk_untouched)]),
+                            2: LoopSpec(invariants=[('parsed-exactly-the-passing-files-so-far', inner_inv2), ('walk-result-untouched', ls_walk_untouched)])},
+                     ensures=[('every-passing-file-parsed-exactly-once-and-no-other', lambda c: ls_counts(c, z3.Length(W(c)), z3.IntVal(0))),
+                              ('parsed-path-is-join(root,file)', ls_args),
+                              ('in-walk-order', ls_order)],
+                     modifies=lambda c: {'*': True}))
+
+    # ---- P3GlobalSemanticAnalysis.run: the analysis starts exactly from the saved entry points -------------------------------
+    CS = 'src/lian/common_structs.py'
+    PS = 'src/lian/core/prelim_semantics.py'
+    reg.add_class(ClassInfo('SymbolStateSpace', CS, {}))
+    reg.add_class(ClassInfo('StateFlowGraph', CS, dict(method_id=Any, graph=Any), bases=['SymbolGraph']))
+    reg.add_class(ClassInfo('SymbolGraph', CS, dict(method_id=Any, graph=Any)))
+    reg.add_class(ClassInfo('MetaComputeFrame', CS, dict(method_id=Any)))
+    reg.add_class(ClassInfo('ComputeFrame', CS, dict(method_id=Any, loader=Any, frame_space=Any, state_flow_graph=Any, call_site_analyze_counter=Any),
+                            bases=['MetaComputeFrame']))
+    reg.add_class(ClassInfo('ComputeFrameStack', CS, dict(_stack=List(Any), method_ids=Set(Any))))
+    reg.add_class(ClassInfo('PathManager', CS, dict(paths=Any)))
+    reg.add_class(ClassInfo('P2PrelimSemanticAnalysis', PS, {}))
+    reg.classes['Options'].fields.update(quiet=Any, enable_p2=Any)
+    reg.add_class(ClassInfo('P3GlobalSemanticAnalysis', GS, dict(options=Obj('Options'), loader=Obj('Loader'), call_site_analyze_counter=Dict(Any, Any),
+                                                                 path_manager=Obj('PathManager'), analysis_phase_id=Any),
+                            bases=['P2PrelimSemanticAnalysis']))
+    P3 = Obj('P3GlobalSemanticAnalysis')
+
+    def protect(c, self_obj):
+        """frame assumed of the opaque analysis/saving callees: they do not touch the entry-point set, nor the pointers to it"""
+        ld = c.old.attr(self_obj, 'loader')
+        epl = c.old.attr(ld, '_entry_points_loader')
+        st_ = c.old.attr(epl, 'entry_points')
+        return {'*': True, 'dom': (lambda a: a != S.addr(st_)), 'attr:loader': (lambda a: a != S.addr(self_obj)),
+                'attr:_entry_points_loader': (lambda a: a != S.addr(ld)), 'attr:entry_points': (lambda a: a != S.addr(epl)),
+                'attr:options': (lambda a: a != S.addr(self_obj)), 'attr:path_manager': (lambda a: a != S.addr(self_obj))}
+
+    reg.add(Contract(CS, 'SymbolStateSpace.__init__', dict(self=Obj('SymbolStateSpace')), returns=NoneT, opaque=True,
+                     modifies=lambda c: {'*': (lambda a: a >= c.old.next)}, note='constructor of the abstract state space (not in scope)'))
+    reg.add(Contract(CS, 'SymbolGraph.__init__', dict(self=Obj('SymbolGraph'), method_id=Any), returns=NoneT, opaque=True,
+                     ensures=[('records-method-id', lambda c: c.new.attr(c.p.self, 'method_id') == c.p.method_id)],
+                     modifies=lambda c: {'attr:method_id': [c.p.self], 'attr:graph': [c.p.self], '*': (lambda a: a >= c.old.next)},
+                     note='StateFlowGraph(entry) = networkx.DiGraph wrapper (networkx: trusted)'))
+    reg.add(Contract(CS, 'ComputeFrameStack.__init__', dict(self=Obj('ComputeFrameStack')), returns=NoneT,
+                     ensures=[('empty-stack', lambda c: z3.Length(c.new.list(c.new.attr(c.p.self, '_stack'))) == 0),
+                              ('fresh-containers', lambda c: z3.And(S.addr(c.new.attr(c.p.self, '_stack')) >= c.old.next,
+                                                                    S.addr(c.new.attr(c.p.self, 'method_ids')) >= c.old.next))],
+                     modifies=lambda c: {'attr:_stack': [c.p.self], 'attr:method_ids': [c.p.self]}, fresh_fields=['list', 'dom']))
+    reg.add(Contract(CS, 'ComputeFrameStack.add', dict(self=Obj('ComputeFrameStack'), element=Obj('MetaComputeFrame')), returns=Obj('ComputeFrameStack'),
+                     ensures=[('pushed-on-top', lambda c: c.new.list(c.old.attr(c.p.self, '_stack')) ==
+                               z3.Concat(c.old.list(c.old.attr(c.p.self, '_stack')), z3.Unit(c.p.element))),
+                              ('returns-self', lambda c: c.res == c.p.self),
+                              ('method-id-recorded', lambda c: S.forall([xq], z3.Select(c.new.dom(c.old.attr(c.p.self, 'method_ids')), xq) ==
+                                                                        z3.Or(z3.Select(c.old.dom(c.old.attr(c.p.self, 'method_ids')), xq),
+                                                                              xq == c.old.attr(c.p.element, 'method_id'))))],
+                     modifies=lambda c: {'list': [c.old.attr(c.p.self, '_stack')], 'dom': [c.old.attr(c.p.self, 'method_ids')]}))
+    reg.add(Contract(CS, 'MetaComputeFrame.__init__', dict(self=Obj('MetaComputeFrame')), returns=NoneT, opaque=True,
+                     modifies=lambda c: {'attr:method_id': [c.p.self], '*': (lambda a: a >= c.old.next)}, note='dataclass-generated constructor'))
+    reg.add(Contract(CS, 'ComputeFrame.__init__',
+                     dict(self=Obj('ComputeFrame'), method_id=Any, caller_id=Any, call_stmt_id=Any, loader=Any, space=Any, params_list=Any,
+                          classes_of_method=Any, this_class_ids=Any, state_flow_graph=Any, call_site_analyze_counter=Any), returns=NoneT, opaque=True,
+                     ensures=[('records-its-arguments', lambda c: z3.And(c.new.attr(c.p.self, 'method_id') == c.p.method_id,
+                                                                         c.new.attr(c.p.self, 'state_flow_graph') == c.p.state_flow_graph,
+                                                                         c.new.attr(c.p.self, 'frame_space') == c.p.space))],
+                     modifies=lambda c: {'attr:method_id': [c.p.self], 'attr:loader': [c.p.self], 'attr:frame_space': [c.p.self],
+                                         'attr:state_flow_graph': [c.p.self], 'attr:call_site_analyze_counter': [c.p.self], '*': (lambda a: a >= c.old.next)},
+                     note='constructor of the per-method frame (130 lines of field initialisation, not in scope); space is stored as frame_space... '
+                          'only method_id/state_flow_graph are used by the proof'))
+
+    def ifs_spec(c):
+        stack = c.new.list(c.new.attr(c.res, '_stack'))
+        top = S.at(stack, 1)
+        return z3.And(z3.Length(stack) == 2, S.has_type(S.at(stack, 0), Obj('MetaComputeFrame')), S.has_type(top, Obj('ComputeFrame')),
+                      c.new.attr(top, 'method_id') == c.p.entry_method_id, c.new.attr(top, 'state_flow_graph') == c.p.sfg)
+    reg.add(Contract(GS, 'P3GlobalSemanticAnalysis.init_frame_stack', dict(self=P3, entry_method_id=Any, global_space=Any, sfg=Any),
+                     returns=Obj('ComputeFrameStack'),
+                     ensures=[('meta-frame-then-entry-frame-for-this-entry', ifs_spec), ('fresh-stack', lambda c: S.addr(c.res) >= c.old.next)],
+                     modifies=lambda c: {'*': (lambda a: a >= c.old.next)}, fresh_fields=[]))
+    reg.add(Contract(GS, 'P3GlobalSemanticAnalysis.analyze_frame_stack', dict(self=P3, frame_stack=Obj('ComputeFrameStack'), global_space=Any, sfg=Any),
+                     returns=Any, opaque=True, modifies=lambda c: protect(c, c.p.self), note='the top-down analysis itself (C07/C09/C10: not applicable)'))
+    reg.add(Contract(PS, 'P2PrelimSemanticAnalysis.save_graph_to_dot', dict(self=P3, graph=Any, entry_point=Any, phase_id=Any, symbol_state_space=Any),
+                     returns=Any, opaque=True, modifies=lambda c: protect(c, c.p.self), note='debug dump'))
+    for nm, params in (('save_global_sfg_by_entry_point', dict(method_id=Any, graph=Any)), ('save_symbol_state_space_p3', dict(method_id=Any, state_space=Any)),
+                       ('save_call_paths_p3', dict(paths=Any))):
+        reg.add(Contract(LD, 'Loader.' + nm, dict(self=Obj('Loader'), **params), returns=Any, opaque=True,
+                         modifies=lambda c: {'*': True, 'dom': (lambda a: a != S.addr(c.old.attr(c.old.attr(c.p.self, '_entry_points_loader'), 'entry_points'))),
+                                             'attr:_entry_points_loader': (lambda a: a != S.addr(c.p.self)),
+                                             'attr:entry_points': (lambda a: a != S.addr(c.old.attr(c.p.self, '_entry_points_loader'))),
+                                             'attr:loader': (lambda a: z3.BoolVal(False)), 'attr:options': (lambda a: z3.BoolVal(False)),
+                                             'attr:path_manager': (lambda a: z3.BoolVal(False))},
+                         note='result loaders (C15)'))
+
+    PI = z3.ArraySort(S.PyObj(), z3.IntSort())
+    PP = z3.ArraySort(S.PyObj(), S.PyObj())
+
+    def run_ghost(ex, st):
+        st.ghost['started'] = z3.K(S.PyObj(), z3.IntVal(0))     # started[e]: number of init_frame_stack(e, ..) calls
+        st.ghost['sfg_of'] = z3.Const('g_sfg0', PP)             # the graph object created for entry e
+        st.ghost['saved'] = z3.K(S.PyObj(), z3.IntVal(0))       # saved[e]: number of save_global_sfg_by_entry_point(e, ..) calls
+        st.ghost['saved_sfg'] = z3.Const('g_saved0', PP)
+
+    def after_init(ex, st, bound, res, old):
+        g = st.ghost
+        e = bound['entry_method_id'].t
+        g['started'] = z3.Store(g['started'], e, z3.Select(g['started'], e) + 1)
+        g['sfg_of'] = z3.Store(g['sfg_of'], e, bound['sfg'].t)
+
+    def after_save(ex, st, bound, res, old):
+        g = st.ghost
+        e = bound['method_id'].t
+        g['saved'] = z3.Store(g['saved'], e, z3.Select(g['saved'], e) + 1)
+        g['saved_sfg'] = z3.Store(g['saved_sfg'], e, bound['graph'].t)
+
+    def ep_set(c, h):
+        return h.dom(c.pre.attr(c.pre.attr(c.pre.attr(c.p.self, 'loader'), '_entry_points_loader'), 'entry_points'))
+
+    def run_counts(c, upto):
+        """exactly the first `upto` elements of the (arbitrary, duplicate-free) enumeration of the entry-point set were started and saved"""
+        enum = c.seq
+        done = z3.And(S.member(enum, xq), S.idx_of(enum, xq) < upto)
+        return S.forall([xq], z3.And(z3.Select(c.g.started, xq) == z3.If(done, 1, 0), z3.Select(c.g.saved, xq) == z3.If(done, 1, 0),
+                                     z3.Implies(done, z3.Select(c.g.saved_sfg, xq) == z3.Select(c.g.sfg_of, xq))),
+                        patterns=[z3.Select(c.g.started, xq), z3.Select(c.g.saved, xq), S.member(enum, xq)])
+
+    def run_final(c):
+        if 'loop1_i' not in c.g:
+            return z3.BoolVal(False)
+        st_ = ep_set(c, c.pre)
+        return S.forall([xq], z3.And(z3.Select(c.g.started, xq) == z3.If(z3.Select(st_, xq), 1, 0), z3.Select(c.g.saved, xq) == z3.If(z3.Select(st_, xq), 1, 0),
+                                     z3.Implies(z3.Select(st_, xq), z3.Select(c.g.saved_sfg, xq) == z3.Select(c.g.sfg_of, xq))),
+                        patterns=[z3.Select(c.g.started, xq), z3.Select(c.g.saved, xq), z3.Select(st_, xq)])
+
+    def run_keep(c):
+        s_ = c.p.self
+        ld = c.pre.attr(s_, 'loader')
+        epl = c.pre.attr(ld, '_entry_points_loader')
+        return z3.And(c.cur.attr(s_, 'loader') == ld, c.cur.attr(ld, '_entry_points_loader') == epl,
+                      c.cur.attr(epl, 'entry_points') == c.pre.attr(epl, 'entry_points'), ep_set(c, c.cur) == ep_set(c, c.pre),
+                      c.cur.attr(s_, 'options') == c.pre.attr(s_, 'options'), c.cur.attr(s_, 'path_manager') == c.pre.attr(s_, 'path_manager'))
+
+    reg.add(Contract(GS, 'P3GlobalSemanticAnalysis.run', dict(self=P3), returns=Any,
+                     ghost_init=run_ghost, ghost_hooks={'after_call:P3GlobalSemanticAnalysis.init_frame_stack': after_init,
+                                                        'after_call:Loader.save_global_sfg_by_entry_point': after_save},
+                     loops={1: LoopSpec(invariants=[('started-and-saved-exactly-the-entries-enumerated-so-far', lambda c: run_counts(c, c.i)),
+                                                    ('entry-point-set-untouched', run_keep)])},
+                     ensures=[('starts-are-exactly-the-saved-entry-points,-each-once,-and-its-own-graph-is-saved', run_final)],
+                     modifies=lambda c: {'*': True}))
     return reg
 
 
 ASSUMPTIONS = [
     'rule fields have the types declared by the EntryPointRule dataclass (yaml.safe_load output is not type-checked by the code)',
     'rules using the unimplemented args/return_type criteria are outside the precondition of check_rules (the code compares them with "")',
-    'unit_info / scope rows are modelled as objects with the attributes read (lang, module_id, unit_path; name, attrs, stmt_id)',
+    'unit_info / scope rows are modelled as objects with the attributes read (lang, module_id, unit_path; name, attrs, stmt_id); '
+    'scope name/attrs are strings or missing',
+    'DataModel.query_index_column_value returns the rows whose column equals the value (that is C16); here it is an uninterpreted sequence',
+    'os.walk returns a finite sequence of (root, dirs, files) with freshly allocated lists of strings; yaml.safe_load and the rule construction '
+    'in _parse_config_file are not under contract (assumed frame: appends to entry_point_rules)',
+    'P3 run: the analysis/saving callees (analyze_frame_stack, save_*), SymbolStateSpace(), StateFlowGraph() and ComputeFrame() are opaque with the '
+    'assumed frame that they do not touch the entry-point set or the pointers leading to it',
+    'TaintAnalysis.run (which graphs the taint phase reads) is not under contract in this tree: the last sentence of the statement '
+    '("code reachable from no entry contributes no flows") is covered only up to the set of analysis starts',
+    'opaque definitional unfolding: the file-name predicate of _load_settings is revealed for the current file name only',
 ]
-EXPLANATION = 'Deductive proof of the entry-point selection functions against the exact-selection specification (UnitMatch / MethodMatch).'
+EXPLANATION = ('Deductive proof of the entry-point selection chain on the real source: file-name flag, availability flags, unit filter, '
+               'method matching (exact selection in both directions), saving to the loader, the settings walk, and the P3 driver loop '
+               '(starts == saved entry points, each once, own graph saved).')
+QUICK_CANARIES = {
+    'check_file_processing_flag_and_extract_lang': ['negate-condition', 'flip-comparison'],
+    'EntryPointGenerator.filter_rule_by_unit_info': ['flip-comparison', 'swap-and-or', 'delete-stmt[candidate_rules.append'],
+    'EntryPointGenerator.check_rules': ['flip-comparison', 'delete-stmt[matched = True]', 'delete-stmt[self.entry_point_results.add'],
+    'EntryPointGenerator.collect_entry_points_from_unit_scope': ['negate-condition', 'delete-stmt[self.loader.save_entry_points'],
+    'EntryPointsLoader.save': ['delete-stmt[self.entry_points |='],
+    'P3GlobalSemanticAnalysis.run': ['delete-stmt[self.loader.save_global_sfg_by_entry_point', 'delete-stmt[frame_stack = self.init_frame_stack'],
+    'EntryPointGenerator._load_settings': ['negate-condition', 'delete-stmt[continue]'],
+    'EntryPointRule.check_availablility': ['delete-stmt[self.is_lang_available'],
+}
+MIN_CANARY_KILL_RATIO = 0.9
+EQUIVALENT_MUTANTS = ('delete-stmt[return True] @L18', 'delete-stmt[return True] @L29')   # `not None` is True as well
